@@ -4,6 +4,7 @@ import (
 	"fmt"
 	"go/constant"
 	"go/token"
+	"go/types"
 	"sort"
 	"strings"
 
@@ -308,6 +309,17 @@ func Interpret(fn *ssa.Function, env Env, opts InterpOpts) Outcome {
 							r = sv
 						}
 					}
+					if b, ok := r.Type().Underlying().(*types.Basic); ok && b.Info()&types.IsBoolean != 0 {
+						it.prev = prevOf(b0(x), it.prev)
+						switch it.boolVal(r) {
+						case tTrue:
+							rs = append(rs, "true")
+							continue
+						case tFalse:
+							rs = append(rs, "false")
+							continue
+						}
+					}
 					rs = append(rs, AbstractResult(r))
 				}
 				return Outcome{Kind: "return", Results: rs, Calls: calls}
@@ -491,3 +503,8 @@ func isLocalAddr(v ssa.Value) bool {
 	}
 	return false
 }
+
+func b0(r *ssa.Return) *ssa.BasicBlock { return r.Block() }
+
+// prevOf keeps the predecessor used for phi resolution.
+func prevOf(_ *ssa.BasicBlock, prev *ssa.BasicBlock) *ssa.BasicBlock { return prev }
